@@ -63,7 +63,7 @@ def norm_attr(v):
 class Acc:
     def __init__(self):
         self.res = {"evaluations": 0, "nontrivial": set(), "violations": [], "disagreements": [], "distribution": {},
-                    "streams": 4, "notes": []}
+                    "streams": 5, "notes": []}
 
     def count(self, k, n=1):
         d = self.res["distribution"]
@@ -336,7 +336,14 @@ def layout_pool():
     mk = [lambda: None, lambda: None, lambda: Layout(origin=o1), lambda: Layout(origin=o1), lambda: Layout(origin=o2),
           lambda: Layout(extent=ext), lambda: Layout(origin=o1, extent=ext, padding=pad), lambda: Layout(alignment=al),
           lambda: Layout(), lambda: DFXP_DEFAULT_REGION,
-          lambda: Layout(alignment=Alignment(HorizontalAlignmentEnum.CENTER, VerticalAlignmentEnum.BOTTOM))]
+          lambda: Layout(alignment=Alignment(HorizontalAlignmentEnum.CENTER, VerticalAlignmentEnum.BOTTOM)),
+          # alignments with only ONE component (a DFXP input with an unknown tts:textAlign plus tts:displayAlign
+          # yields the first): no attribute may be written with the value None
+          lambda: Layout(alignment=Alignment(None, VerticalAlignmentEnum.TOP)),
+          lambda: Layout(alignment=Alignment(HorizontalAlignmentEnum.RIGHT, None)),
+          lambda: Layout(origin=o2, alignment=Alignment(None, VerticalAlignmentEnum.CENTER)),
+          lambda: Layout(extent=ext, alignment=Alignment(HorizontalAlignmentEnum.LEFT, None)),
+          lambda: Layout(alignment=Alignment(None, None))]
     return mk
 
 
@@ -718,12 +725,80 @@ def stream_documents(ctx, acc):
                         acc.count("D_adjacent_same_end_different_start", sum(1 for a, b in pairs if a.start != b.start and a.end == b.end))
 
 
+VOCABS = [["p"], ["default"], ["s1"], [], ["p", "s1"], ["default", "k1"]]
+
+
+def history_set(rng, vocab):
+    """a caption set whose style ids are exactly `vocab`; styled (known / unknown class) and unstyled captions"""
+    pool = layout_pool()
+    styles = {name: rand_style(rng, allow_empty=False) for name in vocab}
+    d = {}
+    for lang in rng.sample(LANGS, rng.choice([1, 1, 2])):
+        caps = []
+        for ci in range(rng.randint(1, 3)):
+            nodes = [(n[0], dict(n[1], **{"class": rng.choice(vocab + ["p", "default", "zz"])})) if n[0] == "start" and rng.random() < 0.3 else n
+                     for n in rand_nodes(rng)]
+            lays = [rng.choice(pool)() if rng.random() < 0.25 else None for _ in nodes]
+            kw = {"layout_info": rng.choice(pool)()}
+            r = rng.random()
+            if r < 0.35 and vocab:
+                kw["style"] = {"class": rng.choice(vocab)}
+            elif r < 0.5:
+                kw["style"] = dict(rand_style(rng, allow_empty=False), **{"class": rng.choice(["p", "default", "s1", "zz"])})
+            caps.append(Caption(ci * 2000000, ci * 2000000 + 1000000, to_caption_nodes(nodes, lays), **kw))
+        d[lang] = CaptionList(caps, layout_info=rng.choice(pool)())
+    return CaptionSet(d, styles=styles, layout_info=rng.choice(pool)())
+
+
+def stream_histories(ctx, acc):
+    """ONE writer object used for 2-4 write() calls on caption sets with different style-id vocabularies and layouts:
+    every document of the history is judged on its own (a stale per-writer flag such as 'a p style exists' shows up
+    as a style= reference that does not resolve)"""
+    rng = ctx.rng
+    fixed = [[["p"], ["s1"]], [["p"], []], [["default"], ["s1"], ["p"]], [["s1"], ["default"], [], ["p"]]]
+    hists = fixed + [[rng.choice(VOCABS) for _ in range(rng.randint(2, 4))] for _ in range(ctx.n(40, 800))]
+    for hist in hists:
+        for wname in ("main", "single", "legacy"):
+            kw = {}
+            if wname != "legacy" and rng.random() < 0.5:
+                kw["write_inline_positioning"] = True
+            w = WRITERS[wname](**kw)
+            for step, vocab in enumerate(hist):
+                cs = history_set(rng, vocab)
+                langs = cs.get_languages()
+                out = impl.call(lambda: w.write(cs))
+                acc.res["evaluations"] += 1
+                inp = {"history": hist, "step": step, "writer": wname, "options": kw, "set": gens.describe_capset(cs),
+                       "styles": repr(cs.get_styles())[:400]}
+                if not isinstance(out, Ok):
+                    acc.res["violations"].append({"kind": "write-raises", "what": "%s writer raised at step %d of a history" % (wname, step),
+                                                  "input": inp, "replay": "none"})
+                    break
+                ps = [[(c.start, c.end) for c in cs.get_captions(l)] for l in langs] if wname == "main" else \
+                    [runs(cs.get_captions(l)) for l in langs]
+                try:
+                    root = etree.fromstring(out.v.encode("utf-8"))
+                except etree.XMLSyntaxError as e:
+                    acc.res["violations"].append(tag_collision({"kind": "ill-formed-xml", "what": "step %d of a history on one %s writer: %s" % (step, wname, e),
+                                                                "input": inp, "document": out.v[:4000], "replay": "none"}, cs))
+                    continue
+                v = check_document(root, out.v, langs, ps)
+                if v:
+                    v["what"] = "step %d of a history %r on one %s writer object: %s" % (step, hist, wname, v["what"])
+                    acc.res["violations"].append(dict(tag_collision(v, cs), input=inp, document=out.v[:4000], replay="none"))
+                else:
+                    acc.res["nontrivial"].add(("H", wname, out.v))
+                    acc.count("H_documents_in_histories_ok")
+                    acc.count("H_step_ge_1", int(step >= 1))
+
+
 def run(ctx):
     acc = Acc()
     stream_values(ctx, acc)
     stream_payload(ctx, acc)
     stream_regions(ctx, acc)
     stream_documents(ctx, acc)
+    stream_histories(ctx, acc)
     res = acc.res
     res["samples"] = [x[1] for x in list(res["nontrivial"]) if x[0] == "S"][:5]
     res["rule"] = ("S: attribute values containing one of & < > \" '; P: distinct (writer, node lists) whose payload equals the "
